@@ -227,19 +227,52 @@ theorem dispatch_still_serves (evs : List DispEv) :
   rw [guards_present]; exact disp_serves evs
 
 /-- **callHandler, the table of outbound connections**: any sequence of dials (handshake completing or
-not, the peer announcing the dialled id, another id, none), hang-ups and requests: the removal under
-the announced id never dereferences a missing entry, the handler stays alive -/
+not, the peer announcing the dialled id, another id, none), hang-ups of connections that hold an entry
+and of connections `DisConnectTo` removed from the table without closing them (the peer hangs up
+afterwards: the id is reported a second time), `DisConnectTo` of ANY id (connected, never connected,
+disconnected already — double removal), requests and `Leave`: the removal branch never dereferences a
+missing entry, the handler stays alive -/
 theorem connection_table_total (evs : List ConnEv) :
     (connRun Cfg.current {} evs).1.alive = true ∧ ∀ o ∈ (connRun Cfg.current {} evs).2, o.isPanic = false := by
   rw [guards_present]
   have := connRun_inv evs {} ⟨rfl, by simp⟩
-  exact ⟨this.1.1, this.2⟩
+  exact ⟨this.1.1, this.2.1⟩
+-- DisConnectTo, then the peer hangs up (second removal of the same id), DisConnectTo of an id never dialled, twice
+example : (connRun Cfg.all {} [.dial 2 2 true, .disc 2, .hangup 2, .disc 7, .disc 7, .req 2]).2
+    = [.ok "dialled", .ok "removed", .ok "kept", .ok "kept", .ok "kept", .ok "dialled"] := by decide
+-- the same history on a tree without the `c != nil` test around the removal (the seeded change): the node dies
+example : (connRun { Cfg.all with callRemoveNil := false } {} [.req 2, .disc 2, .hangup 2]).2
+    = [.ok "dialled", .ok "removed", .panic "p2p.server.callHandler|deref|c.conn"] := by decide
+example : (connRun { Cfg.all with callRemoveNil := false } {} [.disc 7]).2.any Out.isPanic = true := by decide
+-- the end of the connection DisConnectTo left open takes the entry of the NEWER connection to that member with it
+example : ((connRun Cfg.all {} [.dial 2 2 true, .disc 2, .dial 2 2 true, .hangupOld 2]).1.tab, (connRun Cfg.all {} [.dial 2 2 true, .disc 2, .dial 2 2 true, .hangupOld 2]).2)
+    = ([], [.ok "dialled", .ok "removed", .ok "dialled", .ok "removed"]) := by decide
 
-/-- … and after any such history a request to ANY member is served over a live connection: no dead
-entry is ever left behind (what f4bcda2 repaired: see the witness below with `callIdMatch` off) -/
-theorem connection_table_still_serves (evs : List ConnEv) (x : Nat) :
+/-- … and after any history a PEER can produce (dials answered with any id or none, handshakes that
+fail, hang-ups at any point, interleaved with requests) a request to ANY member is served over a live
+connection: no dead entry is ever left behind (what f4bcda2 repaired: see the witness below with
+`callIdMatch` off) -/
+theorem connection_table_still_serves (evs : List ConnEv) (x : Nat) (hp : ∀ e ∈ evs, e.peerOnly = true) :
     ∃ i, (connStep Cfg.current (connRun Cfg.current {} evs).1 (.req x)).2 = .ok i := by
-  rw [guards_present]; exact conn_serves evs x
+  rw [guards_present]; exact conn_serves_peer evs x hp
+example : ∃ i, (connStep Cfg.current (connRun Cfg.current {} [.dial 2 3 true, .hangup 2, .req 2, .hangup 2, .dial 3 0 true, .dial 5 5 false]).1 (.req 2)).2 = .ok i :=
+  connection_table_still_serves _ 2 (by decide)
+
+/-- … and with the node's own `DisConnectTo` calls in the history too (any id, any number of times; the
+entry is deleted, the connection stays open and reports its end later): every member is still served,
+except — while that connection lives — a member the node itself cut loose: the member keeps one
+inbound connection per peer and closes the second one (`err dup`; ends with the 60 s idle timer).
+That exception is the doing of a local call nothing in the node makes, not of a peer. -/
+theorem connection_table_serves_after_disconnect (evs : List ConnEv) (x : Nat) (hl : ConnEv.leave ∉ evs)
+    (hcut : connCutLoose (connRun Cfg.current {} evs).1 x = false) :
+    ∃ i, (connStep Cfg.current (connRun Cfg.current {} evs).1 (.req x)).2 = .ok i := by
+  rw [guards_present] at hcut ⊢; exact conn_serves evs x hl hcut
+example : ∃ i, (connStep Cfg.current (connRun Cfg.current {} [.dial 2 2 true, .disc 2, .dial 2 2 true, .hangupOld 2, .disc 2, .disc 9, .hangup 2, .req 3, .disc 3]).1 (.req 2)).2 = .ok i :=
+  connection_table_serves_after_disconnect _ 2 (by decide) (by rw [guards_present]; decide)
+-- the exception: the honest member refuses a second connection while the one cut loose is open
+example : (connRun Cfg.all {} [.req 2, .disc 2, .req 2, .req 3]).2 = [.ok "dialled", .ok "removed", .err "dup", .ok "dialled"] := by decide
+-- after Leave nothing is handled (and nothing crashes)
+example : (connRun Cfg.all {} [.req 2, .leave, .disc 2, .hangup 2, .req 3]).2 = [.ok "dialled", .ok "left", .dropped, .dropped, .dropped] := by decide
 
 theorem messageDispatch_total (f : Feed) : (messageDispatch Cfg.current f).isPanic = false := by
   rw [guards_present]; exact Handlers.messageDispatch_total f
